@@ -548,15 +548,9 @@ def float_stress_section(ck):
                 ck.fail("average_link_graph/raises", "average_link_graph raised %s: %s" % (type(e).__name__, e), rep)
 
 # ------------------------------------------------------------------ *_segment wrappers over their whole argument range
-class _Degenerate(Exception):
-    pass
-
-
-def cut_labels_at(parents, hs, n, th, strict_leaves):
-    """labels of the n items when the dendrogram is cut at height th (merges of height < th are kept).  An item whose
-    own height is not below th is outside the domain of the current partition(): _Degenerate (strict_leaves)."""
-    if strict_leaves and any(not (hs[i] < th) for i in range(n)):
-        raise _Degenerate("threshold %s is not above the leaves' height" % th)
+def cut_labels_at(parents, hs, n, th):
+    """labels of the n items when the dendrogram is cut at height th: merges of height < th are kept, the items
+    themselves always are (a threshold that is not above their height gives one cluster per item)"""
     top = []
     for i in range(n):
         v = i
@@ -566,20 +560,18 @@ def cut_labels_at(parents, hs, n, th, strict_leaves):
     return canon(top)
 
 
-def split_labels(parents, hs, n, k):
-    """WeightedForest.split as documented: the trees when k <= number of trees, else the cut at the (k - c)-th largest height"""
+def split_threshold(parents, hs, k):
     V = len(parents)
     k = min(int(k), V)
     c = sum(1 for v in range(V) if parents[v] == v)
-    if k <= c:
-        return cut_labels_at(parents, hs, n, float("inf"), False)
-    th = sorted(hs)[c - k]
-    return cut_labels_at(parents, hs, n, th, True)
+    return None if k <= c else sorted(hs)[c - k]
 
 
 def segment_expected(kind, parents, hs, n, stop, qmax):
     """independent restatement of the *_segment docstrings: the finer of the cut at `stop` (no such cut for stop < 0,
-    stop == -1 meaning no stopping criterion for Ward) and of the cut into qmax groups (qmax == -1: as many as possible)"""
+    stop == -1 meaning no stopping criterion for Ward) and of the cut into qmax groups (qmax == -1: as many as possible).
+    Second result: the signature under which a ValueError('... no vertex') of the implementation is filed (the two
+    situations in which partition() used to keep no node at all), or None."""
     inf = float("inf")
     if kind == "average_link_graph_segment":
         if qmax == -1:
@@ -595,17 +587,18 @@ def segment_expected(kind, parents, hs, n, stop, qmax):
         th = stop if stop >= 0 else None
     u1 = [0] * n
     u2 = [0] * n
-    which = None
-    try:
-        if th is not None:
-            which = "partition/raises/threshold-not-above-leaf-height"
-            u1 = cut_labels_at(parents, hs, n, th, True)
-        if qmax > 0:
-            which = "split/raises/zero-cost-merge"
-            u2 = split_labels(parents, hs, n, qmax)
-    except _Degenerate:
-        return None, which
-    return (u2 if max(u1) < max(u2) else u1), None
+    degenerate = None
+    leafmax = max(hs[:n])
+    if th is not None:
+        if not leafmax < th:
+            degenerate = "partition/raises/threshold-not-above-leaf-height"
+        u1 = cut_labels_at(parents, hs, n, th)
+    if qmax > 0:
+        th2 = split_threshold(parents, hs, qmax)
+        if th2 is not None and not leafmax < th2 and degenerate is None:
+            degenerate = "split/raises/zero-cost-merge"
+        u2 = cut_labels_at(parents, hs, n, inf if th2 is None else th2)
+    return (u2 if max(u1) < max(u2) else u1), degenerate
 
 
 def segment_section(ck):
